@@ -290,7 +290,13 @@ class Num:
         if a.concrete and b.concrete and a.is_int and b.is_int:
             return Num(a.t % b.t if mod else a.t // b.t)
         if not (a.is_int and b.is_int):
-            raise Undecided("floor division / modulo on non-integers")
+            # real floor division / modulo: q = floor(a/b) is a fresh integer whose defining fact
+            # (b*q <= a < b*(q+1) for b > 0) stays outside the path condition; a % b = a - b*q
+            run = engine()
+            run.require_positive_divisor(b)
+            q = fresh_int("floordiv")
+            run.__dict__.setdefault("floor_defs", []).append((q, a, b))
+            return (a - b * q) if mod else Num(q.t, True)
         # z3 div/mod are Euclidean; they agree with Python's floor semantics for b > 0
         engine().require_positive_divisor(b)
         za, zb = a.z(), b.z()
@@ -432,6 +438,18 @@ class Num:
 
     def tolist(self):
         return self
+
+    def __getitem__(self, key):
+        # 0-d array semantics: x[..., np.newaxis] / x[None] is a one-element array
+        ks = key if isinstance(key, tuple) else (key,)
+        if all(k is Ellipsis or k is None for k in ks):
+            from . import arrays
+            a = arrays.full([], self, "float" if self.pyfloat else "int")
+            for k in ks:
+                if k is None:
+                    a = arrays.Arr(a.axes + [arrays.Axis(1)], (lambda a: lambda *c: a.at(*c[:-1]))(a), a.dtype)
+            return a
+        raise TypeError("scalar is not subscriptable")
 
 
 def num(x):
